@@ -321,3 +321,8 @@ def t_simple_shear_angle(sess):
     sess.prove("simple shear: that eigenvalue is the largest (>= 1 >= its reciprocal; the three eigenvalues are lam, 1, 1/lam)", p.pc,
                z3.And((lam >= 1).z3(), eq((lam + (1 + gam * gam + 1 - lam)), 2 + gam * gam), eq(lam * (2 + gam * gam - lam), 1)))
     sess.prove("simple shear: the helper's angle is arctan of a slope > 1 (between 45 and 90 degrees from X)", p.pc, (t > 1).z3())
+
+
+def default_cex(name):
+    """Generic public-API replay for verdicts that carry no more specific counterexample."""
+    return {"replay": "vf.props.replays:c13_diagnostics", "case": {}, "cls": {"kind": "eigenvalue-based diagnostic wrong or not objective"}}
